@@ -1331,6 +1331,13 @@ def enum_iteration(ctx, probes):
                          "if partial then 1 else partial * 2", "{a: partial * 2, b: a + 1}.b", "partial[1] * partial", "string length(partial)",
                          "substring(partial, 1)", "partial between 1 and 2", "not(partial)", "date(partial)"):
                 yield case("count(for i in 1..%d return %s)" % (n, body), [], n, ["failing-body-quotes-partial", "iterations:%d" % n], cls="partial-in-message")
+            if n == 24:
+                # operands with 2-, 3- and 4-byte characters at every alignment: wherever a long message is cut, it is cut between characters
+                for ch in ("\u00e9", "\u4e2d", "\U0001f600", "\u017c\u20ac"):
+                    for pad in range(0, 24):
+                        yield case('count(for i in 1..12 return partial * "%s%s")' % ("b" * pad, ch), [], 12,
+                                   ["failing-body-quotes-partial", "non-ascii-operand"], cls="partial-in-message")
+                        yield case('"%s%s" * 1' % ("a" * (960 + pad), ch * 40), [], 1, ["long-non-ascii-operand-in-message"], cls="partial-in-message")
             yield case("{a0: [], %s}.a%d" % (", ".join("a%d: [a%d, a%d * 2]" % (i, i - 1, i - 1) for i in range(1, min(n, 40) + 1)), min(n, 40)), [], 1,
                        ["failing-entry-quotes-earlier-entries", "entries:%d" % min(n, 40)], cls="partial-in-message")
         return
